@@ -173,6 +173,12 @@ static std::map<int, std::vector<int>> hlists; // hlist reference: head id -> no
 
 static std::map<int, std::vector<int>> slists; // slist reference: head id -> element ids
 static std::set<int> hidle;                     // hlist nodes with pprev == NULL (node_init'ed, not linked since)
+// OBSERVABLE (round 3 correction): the property says of a REMOVED node only that no list reaches it (oracle).
+// Its own link fields are left open (poison values of dlist_del, stale next of a popped slist node, stale
+// next/pprev of a deleted hlist node), so the dump prints a fixed token for them:
+//   c / t kinds: nodes removed with the plain dlist_del and not re-initialised / re-inserted since (ids; t: rids)
+//   s kind: nodes that are in no list (s_free);  h kind: nodes that no head's chain reaches.
+static std::set<int> removed_d;
 
 // container_of-style macros with a SIDE-EFFECTING argument: the argument must be evaluated exactly once
 // (one pop idiom = one pop).  Every helper counts its evaluations.
@@ -286,8 +292,10 @@ static void free_all()
     hlists.clear();
     slists.clear();
     hidle.clear();
+    removed_d.clear();
 }
 
+static bool s_free(int a);
 static std::string dump()
 {
     std::string s;
@@ -295,13 +303,13 @@ static std::string dump()
     {
         if (cn.size() > 16) return s;
         for (size_t i = 0; i < cn.size(); i++)
-            s += (i ? " " : "") + std::to_string(i) + ":" + cptr(cn[i]->lnk.next) + "/" + cptr(cn[i]->lnk.prev);
+            s += (i ? " " : "") + std::to_string(i) + ":" + (removed_d.count((int)i) ? std::string("-/-") : cptr(cn[i]->lnk.next) + "/" + cptr(cn[i]->lnk.prev));
     }
     else if (kind == 't')
     {
         for (size_t i = 0; i < tobj.size(); i++)
-            s += (i ? " " : "") + std::to_string(i) + ":a=" + ttok(tobj[i]->la.next) + "/" + ttok(tobj[i]->la.prev) +
-                 ",b=" + ttok(tobj[i]->lb.next) + "/" + ttok(tobj[i]->lb.prev);
+            s += (i ? " " : "") + std::to_string(i) + ":a=" + (removed_d.count(2 * (int)i) ? std::string("-/-") : ttok(tobj[i]->la.next) + "/" + ttok(tobj[i]->la.prev)) +
+                 ",b=" + (removed_d.count(2 * (int)i + 1) ? std::string("-/-") : ttok(tobj[i]->lb.next) + "/" + ttok(tobj[i]->lb.prev));
         for (size_t j = 0; j < thead.size(); j++)
             s += " " + std::to_string(tobj.size() + j) + ":" + ttok(thead[j]->next) + "/" + ttok(thead[j]->prev);
     }
@@ -313,11 +321,14 @@ static std::string dump()
         }
     else if (kind == 's')
         for (size_t i = 0; i < sn.size(); i++)
-            s += (i ? " " : "") + std::to_string(i) + ":" + sptr(sn[i]->lnk.next);
+            s += (i ? " " : "") + std::to_string(i) + ":" + (s_free((int)i) ? std::string("-") : sptr(sn[i]->lnk.next));
     else if (kind == 'h')
     {
+        // which nodes the chains of the real heads reach (bounded walk on the real structure)
+        std::set<struct hlist_node *> reach;
+        for (auto *h : hh) { size_t guard = 0; for (struct hlist_node *p = h->first; p && guard++ <= hn.size(); p = p->next) reach.insert(p); }
         for (size_t i = 0; i < hn.size(); i++)
-            s += (i ? " " : "") + std::to_string(i) + ":" + hnid(hn[i]->next) + "/" + hloc(hn[i]->pprev);
+            s += (i ? " " : "") + std::to_string(i) + ":" + (reach.count(hn[i]) ? hnid(hn[i]->next) + "/" + hloc(hn[i]->pprev) : std::string("-/-"));
         for (size_t i = 0; i < hh.size(); i++)
             s += " " + std::to_string(hn.size() + i) + ":" + hnid(hh[i]->first);
     }
@@ -466,7 +477,7 @@ static void oracle_s(out &o)
         struct slist_head *head = &sn[hd]->lnk, *it;
         int guard = 0;
         slist_for_each(it, head) { fw.push_back(atoi(sptr(it).c_str())); if (++guard > 10000) break; }
-        if (fw != want) return o.fail("slist traversal from " + std::to_string(hd) + " = " + ids(fw) + ", reference " + ids(want));
+        if (fw != want) { if (fw.size() > 40) fw.resize(40); return o.fail("slist traversal from " + std::to_string(hd) + " = " + ids(fw) + (fw.size() == 40 ? ",..." : "") + ", reference " + ids(want)); }
         if (slist_size(head) != (int)want.size() || (bool)slist_empty(head) != want.empty()) return o.fail("slist_size/empty disagree");
         for (size_t k = 0; k < sn.size(); k++)
             if ((bool)slist_in(head, &sn[k]->lnk) != (std::find(want.begin(), want.end(), (int)k) != want.end()))
@@ -580,10 +591,11 @@ static void run_op(const std::vector<std::string> &w, const std::string &, out &
         int a = A(1), b = w.size() > 2 ? A(2) : 0;
         struct dlist_head *pa = &cn[a]->lnk, *pb = w.size() > 2 && b < (int)cn.size() ? &cn[b]->lnk : nullptr;
         if (!corrupt) { std::string why = admitted_d(ref, op, a, b); if (!why.empty()) o.fail("call not admitted by the reference semantics: " + why); }
+        if (op == "cinit" || op == "cadd_next" || op == "cadd_prev" || op == "cinsert_instead" || op == "cmove_sorted") removed_d.erase(a);
         if (op == "cinit") { if (ref.multi(a)) o.tag("init-abandons-ring"); dlist_init(pa); ref.abandon(a); }
         else if (op == "cadd_next") { dlist_add_next(pa, pb); ref.ins_after(a, b); o.tag("insert"); }
         else if (op == "cadd_prev") { dlist_add_prev(pa, pb); ref.ins_before(a, b); o.tag("insert"); }
-        else if (op == "cdel") { if (ref.ring_size(a) == 1) o.tag("del-single"); dlist_del(pa); ref.remove(a); o.tag("remove"); }
+        else if (op == "cdel") { if (ref.ring_size(a) == 1) o.tag("del-single"); dlist_del(pa); ref.remove(a); removed_d.insert(a); o.tag("remove"); }
         else if (op == "cdel_init") { if (ref.ring_size(a) == 1) o.tag("del-single"); dlist_del_init(pa); ref.single(a); o.tag("remove"); }
         else if (op == "cmove" || op == "cmove_tail")
         {
@@ -696,7 +708,7 @@ static void run_op(const std::vector<std::string> &w, const std::string &, out &
                 if (k % p == q)
                 {
                     if (mode == 0) ref.single(2 * k + m);
-                    else if (mode == 1) ref.remove(2 * k + m);
+                    else if (mode == 1) { ref.remove(2 * k + m); removed_d.insert(2 * k + m); }
                     else ref.ins_before(2 * k + m, hrid(tgt));
                     o.tag("delete-during-traversal");
                 }
@@ -718,12 +730,12 @@ static void run_op(const std::vector<std::string> &w, const std::string &, out &
             if (op == "tinit")
             {
                 if (ms == "h") { dlist_init(H(a)); ref.single(hrid(a)); }
-                else { dlist_init(N(a)); ref.single(2 * a + m); }
+                else { dlist_init(N(a)); ref.single(2 * a + m); removed_d.erase(2 * a + m); }
             }
-            else if (op == "tadd") { dlist_add_next(N(a), H(b)); ref.ins_after(2 * a + m, hrid(b)); o.tag("insert"); }
-            else if (op == "tadd_tail") { dlist_add_tail(N(a), H(b)); ref.ins_before(2 * a + m, hrid(b)); o.tag("insert"); }
+            else if (op == "tadd") { dlist_add_next(N(a), H(b)); ref.ins_after(2 * a + m, hrid(b)); removed_d.erase(2 * a + m); o.tag("insert"); }
+            else if (op == "tadd_tail") { dlist_add_tail(N(a), H(b)); ref.ins_before(2 * a + m, hrid(b)); removed_d.erase(2 * a + m); o.tag("insert"); }
             else if (op == "tdel") { dlist_del_init(N(a)); ref.single(2 * a + m); o.tag("remove"); }
-            else if (op == "tdelp") { dlist_del(N(a)); ref.remove(2 * a + m); o.tag("remove"); }
+            else if (op == "tdelp") { dlist_del(N(a)); ref.remove(2 * a + m); removed_d.insert(2 * a + m); o.tag("remove"); }
             else if (op == "tmove" || op == "tmove_tail" || op == "tmove_to" || op == "tmove_tail_to")
             {
                 bool to = op == "tmove_to" || op == "tmove_tail_to", tail = op == "tmove_tail" || op == "tmove_tail_to";
@@ -743,6 +755,7 @@ static void run_op(const std::vector<std::string> &w, const std::string &, out &
                 int pos = hrid(b);
                 for (int x : ref.list(hrid(b))) if (a < x / 2) { pos = x; break; }
                 ref.ins_before(2 * a + m, pos);
+                removed_d.erase(2 * a + m);
                 o.tag("sorted-insert");
             }
             else if (op == "tentries" || op == "tentries_rev")
